@@ -109,18 +109,22 @@ META["rule"] += (
     " " + 'Added after the eighth round: node weights of ClimateNetwork and CoupledClimateNetwork (two grids) built on the same coordinates.')
 
 META["rule"] += (
-    " " + 'Added in the continuation session: the grid\'s own account of its geometry (node_coordinates, grid(), boundaries() == the coordinates and their extent); geometric_distance_distribution puts every ordered pair of distinct nodes into the bin of its closed-form distance (margin 4*2^-17 of the largest distance at bin edges); area-weighted frequency distributions (geographical_distribution and the (in/out) AWC distributions, plain and cumulative, 1..8 bins, sequences with ties): every partial sum of the histogram is the cos-lat share of the nodes with value <= some occurring value (2e-6), total 1, smallest values in the first bin - independent of the binning convention; weight type None (unit weights) from the constructor, over hand-assigned weights and before a geographic type; node weights and recorded weight type of data-derived climate networks (Tsonis, Havlin, Hilbert, Spearman; types None / surface / irrigation) after the constructor, after the setter that regenerates the network and after set_threshold.')
+    " " + 'Added in the continuation session: the grid\'s own account of its geometry (node_coordinates, grid(), boundaries() == the coordinates and their extent); geometric_distance_distribution puts every ordered pair of distinct nodes into the bin of its closed-form distance (margin 4*2^-17 of the largest distance at bin edges); area-weighted frequency distributions (geographical_distribution and the (in/out) AWC distributions, plain and cumulative, 1..8 bins, sequences with ties): every partial sum of the histogram is the cos-lat share of the nodes with value <= some occurring value (2e-6), total 1, smallest values in the first bin - independent of the binning convention; weight type None (unit weights) from the constructor, over hand-assigned weights and before a geographic type; node weights and recorded weight type of data-derived climate networks (Tsonis, Havlin, Hilbert, Spearman; types None / surface / irrigation) after the constructor, after the setter that regenerates the network and after set_threshold; region_indices == point-in-polygon of the (lon, lat) point of each node for random rectangles (either orientation, optionally closed explicitly, half of them centred on a node) and triangles in the grid\'s own longitude convention, judged on nodes at least 1e-3 deg from every edge line.')
 for _t, _f in (("quick", {"position_queries": 1500, "boundary_queries": 500,
                           "distance_distributions": 400,
                           "area_weighted_distributions": 2000,
                           "unit_weight_type_sequences": 400,
-                          "regenerated_weights_checked": 200}),
+                          "regenerated_weights_checked": 200,
+                          "region_queries": 1500,
+                          "region_nodes_inside": 4000}),
                ("thorough", {"position_queries": 6000,
                              "boundary_queries": 2000,
                              "distance_distributions": 1500,
                              "area_weighted_distributions": 12000,
                              "unit_weight_type_sequences": 2500,
-                             "regenerated_weights_checked": 1200})):
+                             "regenerated_weights_checked": 1200,
+                             "region_queries": 20000,
+                             "region_nodes_inside": 60000})):
     META["floors"][_t].update(_f)
 
 STYLES = ["generic", "pole", "antimeridian", "coincident", "antipodal",
@@ -492,6 +496,72 @@ def check_euclid(ctx, Grid, X, style, cid, g=None, tag="Grid"):
     if len(ctx.samples) < 4 and n <= 5 and tag == "Grid":
         ctx.sample({"kind": "euclid", "X": X32, "D": L})
     return g
+
+
+def check_region(ctx, g, lat, lon, cid):
+    """`region_indices`: a node is selected iff its (lon, lat) point lies in
+    the polygon given as lon, lat, lon, lat, ... (plane geometry).  Judged for
+    rectangles and triangles, on the nodes at least 1e-3 deg away from the
+    polygon's edges (both ways)."""
+    r = ctx.rng("region", cid)
+    la = ref.f32(lat).astype(np.float64)
+    lo = ref.f32(lon).astype(np.float64)
+    m = 1e-3
+    lo_min, lo_max = (0.0, 360.0) if lo.min() >= 0 else (-180.0, 180.0)
+    for shape in ("rect", "tri"):
+        if shape == "rect":
+            x0, x1 = np.sort(r.uniform(lo_min, lo_max, 2))
+            y0, y1 = np.sort(r.uniform(-90, 90, 2))
+            if r.random() < 0.5 and len(la) > 1:
+                # centred on a node so that something is inside
+                i = int(r.integers(0, len(la)))
+                x0, x1 = lo[i] - r.uniform(1, 40), lo[i] + r.uniform(1, 80)
+                y0, y1 = la[i] - r.uniform(1, 20), la[i] + r.uniform(1, 10)
+                # stay in the grid's own longitude convention (a negative
+                # polygon longitude is remapped by +360 on a 0..360 grid)
+                x0, x1 = max(x0, lo_min), min(x1, lo_max)
+            P = np.array([[x0, y0], [x0, y1], [x1, y1], [x1, y0]])
+            if r.random() < 0.5:
+                P = P[::-1]
+        else:
+            P = np.column_stack([r.uniform(lo_min, lo_max, 3),
+                                 r.uniform(-90, 90, 3)])
+        E = np.roll(P, -1, axis=0) - P
+        L = np.hypot(E[:, 0], E[:, 1])
+        if L.min() < 1.0:
+            continue
+        area2 = np.sum(P[:, 0] * np.roll(P[:, 1], -1)
+                       - np.roll(P[:, 0], -1) * P[:, 1])
+        if abs(area2) < 1.0:
+            continue
+        sg = 1.0 if area2 > 0 else -1.0
+        # signed distance of every node to every edge line (convex polygon)
+        d = np.array([sg * (E[k, 0] * (la - P[k, 1])
+                            - E[k, 1] * (lo - P[k, 0])) / L[k]
+                      for k in range(len(P))])
+        inside = (d > m).all(axis=0)
+        outside = (d < -m).any(axis=0)
+        poly = P.reshape(-1).copy()
+        if r.random() < 0.3:
+            poly = np.concatenate([poly, poly[:2]])   # explicitly closed
+        ok, sel = ctx.call(g.region_indices, poly)
+        ctx.evals()
+        if not ok:
+            ctx.violation(f"region_indices:raises:{type(sel).__name__}",
+                          {"lat": lat, "lon": lon, "region": poly,
+                           "exc": repr(sel)}, cid)
+            continue
+        sel = np.asarray(sel)
+        ctx.count("region_queries")
+        ctx.count("region_nodes_judged", int(inside.sum() + outside.sum()))
+        ctx.count("region_nodes_inside", int(inside.sum()))
+        if sel.shape != la.shape or (sel[inside] != 1).any() \
+                or (sel[outside] != 0).any():
+            bad = np.flatnonzero((inside & (sel != 1)) | (outside & (sel != 0))
+                                 ) if sel.shape == la.shape else []
+            ctx.violation(f"region_indices:ne-point-in-polygon:{shape}",
+                          {"lat": lat, "lon": lon, "region": poly,
+                           "nodes": bad[:5], "selected": sel}, cid)
 
 
 def check_positions(ctx, g, X, cid):
@@ -1331,6 +1401,7 @@ def run(ctx):
             if res is not None:
                 check_lookup_geo(ctx, res[0], lat, lon, cid,
                                  10 if len(lat) > 1 else 3)
+                check_region(ctx, res[0], lat, lon, cid)
                 if k % 5 == 0:      # lat/lon degrees as a plain 2-d grid
                     check_euclid(ctx, Grid, np.vstack([lat, lon]), "latlon",
                                  cid, g=res[0], tag="GeoGrid")
